@@ -2151,6 +2151,22 @@ rrul_fill_Sly(echs_instant_t *restrict tgt, size_t nti, rrulsp_t rr)
 		goto fin;
 	}
 
+	/* check that INTERVAL can meet the time-of-day masks at all,
+	 * the seconds of the day we visit repeat after 86400 steps */
+	with (unsigned int t = (H * 60U + M) * 60U + S, k) {
+		for (k = 0U; k < 86400U; k++,
+			     t = (t + rr->inter % 86400U) % 86400U) {
+			if ((H_mask & (1U << (t / 3600U))) &&
+			    (M_mask & (1ULL << (t / 60U % 60U))) &&
+			    (S_mask & (1ULL << (t % 60U)))) {
+				break;
+			}
+		}
+		if (UNLIKELY(k >= 86400U)) {
+			goto fin;
+		}
+	}
+
 	/* fill up the array the naive way */
 	for (unsigned int w = ymd_get_wday(y, m, d), maxd = __get_ndom(y, m);
 	     res < nti && y < 2100U;
